@@ -685,3 +685,166 @@ package dials
 //@     assert C01_field_pairing: keeps(vtype(base), i) && j == retained(vtype(base), i)
 //@          && fName(vtype(overlay), j) == fName(vtype(base), i)
 //@          && arg1 == vField(base, i) && arg2 == vField(overlay, j)
+
+// ---------------------------------------------------------------------------------------------
+// the deep copier (C02: inputs are never written, copies are fresh; C03: termination on shared and cyclic
+// graphs through the memo, sharing through the memo).  Local clauses per function; the faithful-copy
+// statement over whole graphs is not attempted (DESIGN.md §12).
+// ---------------------------------------------------------------------------------------------
+
+// value nesting is finite: a Go type cannot contain itself by value (through struct fields and arrays), and
+// (boxDepth, in the reflect spec library: boxes nest finitely)
+//@ fun vrank(t RType) int
+//@ axiom value_nesting_rank_nonneg: forall t RType :: {vrank(t)} vrank(t) >= 0
+//@ axiom value_nesting_is_finite_fields: forall t RType, i int :: {vrank(fType(t, i))} kind(t) == Struct && 0 <= i && i < numField(t) ==> vrank(fType(t, i)) < vrank(t)
+//@ axiom value_nesting_is_finite_arrays: forall t RType :: {vrank(elem(t))} kind(t) == Array ==> vrank(elem(t)) < vrank(t)
+// the input graph is finite: graphBound() bounds the number of distinct pointers and maps the memo can hold
+//@ fun graphBound() int
+//@ macro memoRoom(d *deepCopier) int = graphBound() - len(d.ptrMap) - len(d.mapMap)
+//@ macro memoOK(d *deepCopier) bool = (forall k ptrKey :: {mget(d.ptrMap, k)} mhas(d.ptrMap, k) ==> valid(mget(d.ptrMap, k)) && vtype(mget(d.ptrMap, k)) == k.typ)
+//@ macro wfCopier(d *deepCopier) bool = d != nil && d.ptrMap != nil && d.mapMap != nil && allocT(d) < clock && memoOK(d)
+//@ macro young(d *deepCopier, r Ref) bool = allocT(r) >= allocT(d)
+// where deepCopy may write: a settable location in an object the copier made, or (maps, slices) a referent the copier made
+//@ macro writable(d *deepCopier, out Val) bool = valid(out) && young(d, vroot(out)) && allocT(vroot(out)) < clock && vroot(out) != nil
+//@      && (canSet(out) || ((kind(vtype(out)) == Map || kind(vtype(out)) == Slice) && !visnil(out) && young(d, vptr(out)) && allocT(vptr(out)) < clock && vptr(out) != nil))
+// what one call may write among the objects that existed when it started: the object holding out, and - for a
+// map or slice that cannot be replaced - its referent; everything else it writes was allocated during the call
+//@ macro writesStayBelow(out Val, h0 int, c0 int) bool = forall w Val :: {visnilH(rh, w)} {vptrH(rh, w)} {vElemH(rh, w)} {vlenH(rh, w)} {vcapH(rh, w)} {vpointerH(rh, w)}
+//@      allocT(vroot(w)) < c0 && vroot(w) != vroot(out) && !(!canSet(out) && (kind(vtype(out)) == Map || kind(vtype(out)) == Slice) && vroot(w) == vptrH(h0, out)) ==>
+//@      visnilH(rh, w) == visnilH(h0, w) && vptrH(rh, w) == vptrH(h0, w) && vElemH(rh, w) == vElemH(h0, w)
+//@      && vlenH(rh, w) == vlenH(h0, w) && vcapH(rh, w) == vcapH(h0, w) && vpointerH(rh, w) == vpointerH(h0, w) && dynTypeOfH(rh, w) == dynTypeOfH(h0, w)
+// old objects (older than the copier) only point to old objects: true when the copier is created, and kept
+// because old objects are never written
+//@ macro oldHeap(d *deepCopier) bool = forall w Val :: {vptrH(rh, w)} allocT(vroot(w)) < allocT(d) && !visnilH(rh, w) ==> allocT(vptrH(rh, w)) < allocT(d)
+//@ macro olderThanCopierUntouched(d *deepCopier, h0 int) bool = forall w Val :: {visnilH(rh, w)} {vptrH(rh, w)} {vElemH(rh, w)} {vlenH(rh, w)} {vcapH(rh, w)} {vpointerH(rh, w)} allocT(vroot(w)) < allocT(d) ==>
+//@      visnilH(rh, w) == visnilH(h0, w) && vptrH(rh, w) == vptrH(h0, w) && vElemH(rh, w) == vElemH(h0, w)
+//@      && vlenH(rh, w) == vlenH(h0, w) && vcapH(rh, w) == vcapH(h0, w) && vpointerH(rh, w) == vpointerH(h0, w) && dynTypeOfH(rh, w) == dynTypeOfH(h0, w)
+
+//@ func dials.(*deepCopier).registerPair(d, in, out)
+//@   props C03
+//@   safety C16
+//@   requires wfCopier(d) && valid(in) && valid(out) && vtype(in) == vtype(out)
+//@   modifies maps:deepCopier.ptrMap
+//@   ensures memoOK(d)
+//@   ensures C03_memo_only_grows: len(d.ptrMap) >= old(len(d.ptrMap))
+//@   ensures C03_memo_entries_are_never_replaced: forall k ptrKey :: {mget(d.ptrMap, k)} old(mhas(d.ptrMap, k)) ==> mhas(d.ptrMap, k) && mget(d.ptrMap, k) == old(mget(d.ptrMap, k))
+
+//@ func dials.(*deepCopier).deepCopy(d, in, out)
+//@   props C02 C03
+//@   safety C16
+//@   requires C03_unsettable_copy_has_room: kind(vtype(in)) == Slice && !canSet(out) ==> vcap(out) >= vcap(in)
+//@   requires wfCopier(d) && valid(in) && writable(d, out) && vtype(in) == vtype(out) && vtype(in) != nil
+//@   requires C02_input_is_older_than_the_copier: allocT(vroot(in)) < allocT(d) && oldHeap(d)
+//@   requires wf_memo_holds_only_nodes_of_the_finite_input_graph: memoRoom(d) >= 0
+//@   decreases memoRoom(d), boxDepth(in), vrank(vtype(in)), 2
+//@   modifies rh, maps:deepCopier.ptrMap, maps:deepCopier.mapMap
+//@   ensures memoOK(d) && oldHeap(d)
+//@   ensures C02_objects_older_than_the_copier_are_never_written: olderThanCopierUntouched(d, old(rh))
+//@   ensures C02_writes_stay_below_the_destination: writesStayBelow(out, old(rh), old(clock))
+//@   ensures C03_memo_only_grows: memoRoom(d) <= old(memoRoom(d))
+
+//@ func dials.(*deepCopier).deepCopyStruct(d, in, out)
+//@   props C02 C03
+//@   safety C16
+//@   requires wfCopier(d) && valid(in) && writable(d, out) && vtype(in) == vtype(out) && vtype(in) != nil
+//@   requires C02_input_is_older_than_the_copier: allocT(vroot(in)) < allocT(d) && oldHeap(d) && kind(vtype(in)) == Struct && canSet(out)
+//@   requires wf_memo_holds_only_nodes_of_the_finite_input_graph: memoRoom(d) >= 0
+//@   decreases memoRoom(d), boxDepth(in), vrank(vtype(in)), 1
+//@   modifies rh, maps:deepCopier.ptrMap, maps:deepCopier.mapMap
+//@   loop 0:
+//@     invariant 0 <= i && i <= numField(vtype(in))
+//@     invariant memoOK(d) && oldHeap(d)
+//@     invariant C02_objects_older_than_the_copier_are_never_written: olderThanCopierUntouched(d, old(rh))
+//@     invariant C02_writes_stay_below_the_destination: writesStayBelow(out, old(rh), old(clock))
+//@     invariant C03_memo_only_grows: memoRoom(d) <= old(memoRoom(d))
+//@   ensures memoOK(d) && oldHeap(d)
+//@   ensures C02_objects_older_than_the_copier_are_never_written: olderThanCopierUntouched(d, old(rh))
+//@   ensures C02_writes_stay_below_the_destination: writesStayBelow(out, old(rh), old(clock))
+//@   ensures C03_memo_only_grows: memoRoom(d) <= old(memoRoom(d))
+
+//@ func dials.(*deepCopier).deepCopyPtr(d, in, out)
+//@   props C02 C03
+//@   safety C16
+//@   requires wfCopier(d) && valid(in) && writable(d, out) && vtype(in) == vtype(out) && vtype(in) != nil
+//@   requires C02_input_is_older_than_the_copier: allocT(vroot(in)) < allocT(d) && oldHeap(d) && kind(vtype(in)) == Ptr && canSet(out)
+//@   requires wf_memo_holds_only_nodes_of_the_finite_input_graph: memoRoom(d) >= 0
+//@   decreases memoRoom(d), boxDepth(in), vrank(vtype(in)), 1
+//@   modifies rh, maps:deepCopier.ptrMap, maps:deepCopier.mapMap
+//@   ensures memoOK(d) && oldHeap(d)
+//@   ensures C02_objects_older_than_the_copier_are_never_written: olderThanCopierUntouched(d, old(rh))
+//@   ensures C02_writes_stay_below_the_destination: writesStayBelow(out, old(rh), old(clock))
+//@   ensures C03_memo_only_grows: memoRoom(d) <= old(memoRoom(d))
+
+//@ func dials.(*deepCopier).deepCopyIface(d, in, out)
+//@   props C02 C03
+//@   safety C16
+//@   requires wfCopier(d) && valid(in) && writable(d, out) && vtype(in) == vtype(out) && vtype(in) != nil
+//@   requires C02_input_is_older_than_the_copier: allocT(vroot(in)) < allocT(d) && oldHeap(d) && kind(vtype(in)) == Interface && canSet(out)
+//@   requires wf_memo_holds_only_nodes_of_the_finite_input_graph: memoRoom(d) >= 0
+//@   decreases memoRoom(d), boxDepth(in), vrank(vtype(in)), 1
+//@   modifies rh, maps:deepCopier.ptrMap, maps:deepCopier.mapMap
+//@   ensures memoOK(d) && oldHeap(d)
+//@   ensures C02_objects_older_than_the_copier_are_never_written: olderThanCopierUntouched(d, old(rh))
+//@   ensures C02_writes_stay_below_the_destination: writesStayBelow(out, old(rh), old(clock))
+//@   ensures C03_memo_only_grows: memoRoom(d) <= old(memoRoom(d))
+
+//@ func dials.(*deepCopier).deepCopySlice(d, in, out)
+//@   props C02 C03
+//@   safety C16
+//@   requires wfCopier(d) && valid(in) && writable(d, out) && vtype(in) == vtype(out) && vtype(in) != nil
+//@   requires C02_input_is_older_than_the_copier: allocT(vroot(in)) < allocT(d) && oldHeap(d) && kind(vtype(in)) == Slice
+//@   requires C03_unsettable_copy_has_room: !canSet(out) ==> vcap(out) >= vcap(in)
+//@   requires C02_settable_copy_still_aliases_the_input: canSet(out) ==> visnil(out) || vpointerH(rh, out) == vpointerH(rh, in)
+//@   requires wf_memo_holds_only_nodes_of_the_finite_input_graph: memoRoom(d) >= 0
+//@   decreases memoRoom(d), boxDepth(in), vrank(vtype(in)), 1
+//@   modifies rh, maps:deepCopier.ptrMap, maps:deepCopier.mapMap
+//@   ensures memoOK(d) && oldHeap(d)
+//@   ensures C02_objects_older_than_the_copier_are_never_written: olderThanCopierUntouched(d, old(rh))
+//@   ensures C02_writes_stay_below_the_destination: writesStayBelow(out, old(rh), old(clock))
+//@   ensures C03_memo_only_grows: memoRoom(d) <= old(memoRoom(d))
+
+//@ func dials.(*deepCopier).deepCopyMap(d, in, out)
+//@   props C02 C03
+//@   safety C16
+//@   requires C02_settable_copy_still_aliases_the_input: canSet(out) ==> visnil(out) || vpointerH(rh, out) == vpointerH(rh, in)
+//@   requires wfCopier(d) && valid(in) && writable(d, out) && vtype(in) == vtype(out) && vtype(in) != nil
+//@   requires C02_input_is_older_than_the_copier: allocT(vroot(in)) < allocT(d) && oldHeap(d) && kind(vtype(in)) == Map
+//@   requires wf_memo_holds_only_nodes_of_the_finite_input_graph: memoRoom(d) >= 0
+//@   decreases memoRoom(d), boxDepth(in), vrank(vtype(in)), 1
+//@   modifies rh, maps:deepCopier.ptrMap, maps:deepCopier.mapMap
+//@   loop 0:
+//@     invariant !visnil(out) && young(d, vptr(out)) && allocT(vptr(out)) < clock && vptr(out) != nil
+//@     invariant C02_entries_are_written_into_the_copy: allocT(vptr(out)) >= old(clock) || (!canSet(out) && vptr(out) == vptrH(old(rh), out))
+//@     invariant memoOK(d) && oldHeap(d)
+//@     invariant C02_objects_older_than_the_copier_are_never_written: olderThanCopierUntouched(d, old(rh))
+//@     invariant C02_writes_stay_below_the_destination: writesStayBelow(out, old(rh), old(clock))
+//@     invariant C03_memo_only_grows: memoRoom(d) <= old(memoRoom(d))
+//@   ensures memoOK(d) && oldHeap(d)
+//@   ensures C02_objects_older_than_the_copier_are_never_written: olderThanCopierUntouched(d, old(rh))
+//@   ensures C02_writes_stay_below_the_destination: writesStayBelow(out, old(rh), old(clock))
+//@   ensures C03_memo_only_grows: memoRoom(d) <= old(memoRoom(d))
+
+// deepCopyArray(in, out): arrays, and slices whose backing array was just allocated by the copier
+//@ func dials.(*deepCopier).deepCopyArray(d, in, out)
+//@   props C02 C03
+//@   safety C16
+//@   requires wfCopier(d) && valid(in) && valid(out) && vtype(in) == vtype(out) && vtype(in) != nil && (kind(vtype(in)) == Array || kind(vtype(in)) == Slice)
+//@   requires C02_input_is_older_than_the_copier: ite(kind(vtype(in)) == Slice, visnil(in) || allocT(vptr(in)) < allocT(d), allocT(vroot(in)) < allocT(d)) && oldHeap(d)
+//@   requires C02_elements_are_written_into_the_copy: ite(kind(vtype(out)) == Slice,
+//@        vlen(in) == 0 || (!visnil(out) && young(d, vptr(out)) && allocT(vptr(out)) < clock && vptr(out) != nil),
+//@        young(d, vroot(out)) && canSet(out) && allocT(vroot(out)) < clock && vroot(out) != nil)
+//@   requires C03_same_length: vlen(out) >= vlen(in)
+//@   requires C03_slices_arrive_as_unaddressable_views: kind(vtype(in)) == Slice ==> !canAddr(in) && !canAddr(out)
+//@   requires wf_memo_holds_only_nodes_of_the_finite_input_graph: memoRoom(d) >= 0
+//@   decreases memoRoom(d), boxDepth(in), vrank(vtype(in)), 0
+//@   modifies rh, maps:deepCopier.ptrMap, maps:deepCopier.mapMap
+//@   loop 0:
+//@     invariant 0 <= z
+//@     invariant memoOK(d) && oldHeap(d)
+//@     invariant C02_objects_older_than_the_copier_are_never_written: olderThanCopierUntouched(d, old(rh))
+//@     invariant C02_writes_stay_below_the_destination: writesStayBelow(out, old(rh), old(clock))
+//@     invariant C03_memo_only_grows: memoRoom(d) <= old(memoRoom(d))
+//@   ensures memoOK(d) && oldHeap(d)
+//@   ensures C02_objects_older_than_the_copier_are_never_written: olderThanCopierUntouched(d, old(rh))
+//@   ensures C02_writes_stay_below_the_destination: writesStayBelow(out, old(rh), old(clock))
+//@   ensures C03_memo_only_grows: memoRoom(d) <= old(memoRoom(d))
